@@ -612,6 +612,8 @@ def build_world(ctx: Ctx, loop, world_kw=None, connect_order=None):
     for s in scn["sims"]:
         if s["initev"]:
             world.set_initial_event(s["sid"], 0)
+        for t in s.get("initevs") or []:
+            world.set_initial_event(s["sid"], t)  # (an initial event at a later time, possibly several per simulator)
     return world, ents
 
 
